@@ -30,7 +30,7 @@ theorem calmCall_of_ne {c : Call} (h : c.res ≠ .panic) : calmCall c = c := by
 theorem stepRunning_calm {cfg : Cfg} (ok : PathOK cfg) {r : RReq} (hs : safeScript cfg.fr r.script) :
     (stepRunning cfg r).2 ≠ .crash ∧
     stepRunning cfg (calmReq r) = (calmReq (stepRunning cfg r).1, .none) := by
-  rcases r with ⟨peer, script, phase, out, cls, delivered, lock⟩
+  rcases r with ⟨peer, script, phase, out, cls, delivered, lock, released⟩
   cases script with
   | nil => simp [stepRunning, calmReq, failWith, calmOut, calmCls]
   | cons c rest =>
@@ -96,7 +96,7 @@ theorem safeScript_nil (fr : Frames) : safeScript fr [] := by intro c hc; cases 
 
 theorem stepRunning_script {cfg : Cfg} {r : RReq} (hs : safeScript cfg.fr r.script) :
     safeScript cfg.fr (stepRunning cfg r).1.script := by
-  rcases r with ⟨peer, script, phase, out, cls, delivered, lock⟩
+  rcases r with ⟨peer, script, phase, out, cls, delivered, lock, released⟩
   cases script with
   | nil => simpa [stepRunning, failWith] using safeScript_nil cfg.fr
   | cons c rest =>
@@ -193,7 +193,7 @@ theorem step_crashed {cfg : Cfg} {s : RSys} (hs : Safe cfg s) (hc : s.crashed = 
     | queued => by_cases hp : canPop cfg s r = true <;> simp [hp, hc]
     | running =>
       have hne : (stepRunning cfg r).2 ≠ .crash := by
-        rcases r with ⟨peer, script, phase, out, cls, delivered, lock⟩
+        rcases r with ⟨peer, script, phase, out, cls, delivered, lock, released⟩
         cases script with
         | nil => simp [stepRunning]
         | cons c rest =>
